@@ -115,7 +115,7 @@ def generate(rng, tier):
                                                   rmproc=0.5, create=5, add=4, remove=1, delete=1))
         else:
             lines = gen_world.gen_scenario(rng, ops_range=(2, 14), n_comp=(2, 5), n_proc=(0, 3), handlers=0.5,
-                                           ctrl=0.7, clear_disabled=False,
+                                           ctrl=0.7, clear_disabled=False, traits=0.35,
                                            w=dict(enable=0.6, clear=0.2, dispatch=0.6, process=1.5))
         lines = with_via(rng, lines)
         if lines:
